@@ -1,4 +1,4 @@
------------------------------- MODULE KalmanGen ------------------------------
+------------------------------ MODULE KalmanGenDbg ------------------------------
 (* spec -> code for C13.  TLC enumerates integer systems of the Kalman design lattice   *)
 (* (thinned by a checksum stride), evaluates the design module on each of them and      *)
 (* writes, with JsonSerialize, the instance together with the exact posteriors as       *)
@@ -74,7 +74,7 @@ ASSUME
       rows  == RowsOf({I \in pool : Keep(I, StrideOf(I))})
       runs  == { RunOf(I, GRunLen) : I \in {J \in pool : J.fam # "cov" /\ Keep(J, GRunStride)} }
       allok == (\A r \in rows : r.ok) /\ (\A run \in runs : \A i \in DOMAIN run : run[i].ok) IN
-  /\ PrintT(<<"GEN", Cardinality(rows), Cardinality(runs), allok>>)
+  /\ PrintT(<<"t0", JavaTime>>) /\ PrintT(<<"pool", Cardinality(pool), JavaTime>>) /\ PrintT(<<"rows", Cardinality(rows), JavaTime>>) /\ PrintT(<<"runs", Cardinality(runs), JavaTime>>) /\ PrintT(<<"ok", allok, JavaTime>>)
   /\ JsonSerialize(IOEnv.OUT_FILE, [rows |-> rows, runs |-> runs, ok |-> allok])
 
 VARIABLE x
